@@ -549,12 +549,20 @@ func runStorage(c *verdict.Ctx) {
 	defer os.RemoveAll(base)
 
 	if rp := c.Replay(); rp != "" {
-		var w witness
+		var w struct {
+			Stream string `json:"stream"`
+			Index  int    `json:"index"`
+		}
 		if err := verdict.LoadReplay(rp, &w); err != nil {
 			c.HarnessError("replay file: %v", err)
 			return
 		}
-		runHistory(c, w.Index, base)
+		switch w.Stream {
+		case "rotation-race":
+			runRace(c, base)
+		case "history":
+			runHistory(c, w.Index, base)
+		}
 		return
 	}
 
@@ -596,6 +604,7 @@ func runStorage(c *verdict.Ctx) {
 	wg.Wait()
 
 	c.Set("histories", n)
+	runRace(c, base)
 	c.Count("hook_autofile_synced_hits", verifhook.Hits("autofile.synced"))
 	c.Count("hook_group_rotate_hits", verifhook.Hits("group.rotate"))
 	c.Count("hook_group_removed_hits", verifhook.Hits("group.removed"))
